@@ -4,6 +4,7 @@ import os
 import re
 import vlib
 import l2
+import meta
 
 TRUSTED_BASE = [
     'Lean 4.33 kernel; axioms per theorem as listed under coverage.theorems (allow-list: propext, Classical.choice, Quot.sound); no sorry/admit/native_decide/bv_decide/own axioms (grep + #print axioms on every run)',
@@ -50,6 +51,18 @@ def extra_cmp_l2(fam, kinds, nq, nt, laws=False):
         return cov
     return run
 
+def extra_meta(which, nq, nt):
+    """metamorphic relations between real expansions (model-free verdict)"""
+    def run(prop, tier, seed, violation, known, known_hit, notes):
+        n = nq if tier == 'quick' else nt
+        bad, compared = (meta.check_c15 if which == 'c15' else meta.check_c19)(seed, n)
+        for i, b in enumerate(bad[:5]):
+            violation(f'meta-{i}', dict(what='two expansions that the property requires to agree differ (real expander, both inputs given)',
+                                        property=prop, **b))
+        return dict(metamorphic=dict(base_items=n, compared=compared, violations=len(bad), seed=seed))
+    return run
+
+
 PROPS = {
     'C01': dict(
         theorems=[(CMP + 'C01', ['DX.eq_follows_doc', 'DX.partial_cmp_follows_doc', 'DX.cmp_follows_doc',
@@ -75,6 +88,7 @@ PROPS = {
                                  'DX.clone_struct_where', 'DX.clone_enum_where', 'DX.copy_enum_where', 'DX.copy_struct_where'])],
         l1=[('bounds', 6000, 200000), ('all', 3000, 100000), ('ops', 2000, 50000), ('cmpN', 2000, 50000)],
         labels=r'^e\d+:',
+        kinds=('tokens', 'count', 'panic', 'nondet', 'parse'),
         level_text='partial: Lean theorems that the where-clause threaded by the builders is the declarative walk and that with no bound(..) it consists of the declared predicates plus exactly the used field types mentioning a parameter (proved for Clone and Copy; the other traits are tied by L1 only so far); L1 compares every where-clause token for token',
     ),
     'C04': dict(
@@ -86,6 +100,7 @@ PROPS = {
                                                    'DX.FieldE.pushBoundsTo_contrib'])],
         l1=[('bounds', 8000, 300000), ('all', 3000, 100000)],
         labels=r'^e\d+:',
+        kinds=('tokens', 'count', 'panic', 'nondet', 'parse'),
         level_text='Lean theorems: the flag-threading of the builders equals the documented walk over chains of levels (reached levels contribute verbatim; continue iff absent or `..`; stops are local; declared where-clause retained), with the per-trait level tables proved for Clone and Copy and the helper-attribute level (most specific first) for the comparison traits; L1 compares every where-clause token for token on assignments of all bound(..) shapes to all levels',
     ),
     'C05': dict(
@@ -157,6 +172,7 @@ PROPS.update({
                                  'DX.entry_equiv_segments_enum', 'DX.split_equiv', 'DX.order_preserved', 'DX.fromAttrs_congr'])],
         l1=[('all', 4000, 150000), ('cmp1all', 20000, 'all'), ('bounds', 2000, 50000)],
         labels=r'^e\d+:|^err$',
+        extra=extra_meta('c15', 3000, 60000),
     ),
     'C16': dict(
         theorems=[(CMP + 'C16', ['DX.output_shape', 'DX.attr_output_nonempty', 'DX.derive_rejects_with_one_error',
@@ -177,6 +193,7 @@ PROPS.update({
         l1=[('dump', 5000, 150000), ('impl', 2000, 40000)],
         labels=r'.',
         l1_is_concrete=('tokens', 'class'),
+        extra=extra_meta('c19', 3000, 40000),
         l1_concrete_text='with `dump` the expansion is not (item, error carrying exactly the code that is generated without dump) as the model - proved to satisfy dump_payload - prescribes',
     ),
 })
